@@ -21,6 +21,15 @@ static double nv_epsilon0(void) { return 1e-15; }
 static double nv_epsilon1(void) { return 1e-10; }
 static double nv_stpmin(void) { return 2.220446049250313e-15; }
 
+/* More-Thuente / CG_DESCENT: further registered parameters and the interpolation kernels (arbitrary doubles) */
+double nv_delta, nv_theta, nv_ro, nv_gamma, nv_cgd_epsilon;
+static double nv_param_delta(void) { return nv_delta; }
+static double nv_stpmax(void) { return 450359962737049.6; }
+static double nv_cubic(const struct nv_lstep* u, const struct nv_lstep* v) { return nv_nondet_double(); }
+static double nv_quadratic(const struct nv_lstep* u, const struct nv_lstep* v) { return nv_nondet_double(); }
+static double nv_secant(const struct nv_lstep* u, const struct nv_lstep* v) { return nv_nondet_double(); }
+static struct nv_lstep nv_lstep_make3(double t, double f, double g) { struct nv_lstep r; r.t = t; r.f = f; r.g = g; return r; }
+
 /* ghost records of where the acceptance predicates were evaluated */
 struct nv_pred { uint64_t ver, origin; double t, c; _Bool res; };
 struct nv_pred nv_armijo, nv_wolfe, nv_swolfe;
@@ -30,6 +39,13 @@ static _Bool nv_has_wolfe(const struct nv_state* s, const struct nv_state* o, co
 { _Bool r = nv_nondet__Bool(); nv_wolfe.ver = s->ver; nv_wolfe.origin = o->ver; nv_wolfe.t = 0; nv_wolfe.c = c2; nv_wolfe.res = r; return r; }
 static _Bool nv_has_strong_wolfe(const struct nv_state* s, const struct nv_state* o, const struct nv_vector* d, double c2)
 { _Bool r = nv_nondet__Bool(); nv_swolfe.ver = s->ver; nv_swolfe.origin = o->ver; nv_swolfe.t = 0; nv_swolfe.c = c2; nv_swolfe.res = r; return r; }
+
+/* solver_state_t::has_descent (real inline body): true exactly for a negative slope; a NaN slope is NOT a descent direction */
+#define NV_CONTRACT_state_has_descent \
+__CPROVER_requires(NV_STATE_FRESH(self) && __CPROVER_is_fresh(descent, sizeof(*descent))) \
+__CPROVER_assigns() \
+__CPROVER_ensures(__CPROVER_return_value == (self->dg < 0.0)) \
+__CPROVER_ensures(self->dg != self->dg ==> !__CPROVER_return_value)
 
 /* assumed contract of solver_state_t::update(x0 + t*d): the state becomes the single evaluation at the new point */
 static _Bool nv_state_update_along(struct nv_state* s, const struct nv_state* s0, double t, const struct nv_vector* d)
@@ -60,16 +76,18 @@ __CPROVER_ensures(nv_ver_counter == __CPROVER_old(nv_ver_counter) + 1 && state->
 /* common precondition of every do_get (established by lsearchk_t::get): the state is the valid evaluation at step_size */
 #define NV_DOGET_REQUIRES \
 __CPROVER_requires(NV_STATE_FRESH(state) && NV_STATE_FRESH(state0) && __CPROVER_is_fresh(descent, sizeof(*descent)) && __CPROVER_is_fresh(self, sizeof(*self))) \
-__CPROVER_requires(NV_PARAMS_OK && state0->ver <= nv_ver_counter && state->ver <= nv_ver_counter && nv_ver_counter < UINT64_MAX - 20000) \
+__CPROVER_requires(NV_PARAMS_OK && state0->ver <= nv_ver_counter && state->ver <= nv_ver_counter && nv_ver_counter < UINT64_MAX - 2000000) \
 __CPROVER_requires(NV_AT(state, state0, step_size) && state->valid)
 #define NV_DOGET_ASSIGNS __CPROVER_assigns(*state, nv_ver_counter, nv_armijo, nv_wolfe, nv_swolfe)
 #define NV_OK __CPROVER_return_value._0
 #define NV_T __CPROVER_return_value._1
 /* every line search: success => the state is the valid evaluation at x0 + t*d for the returned t */
-#define NV_DOGET_ENSURES_STATE __CPROVER_ensures(NV_OK ==> (NV_AT(state, state0, NV_T) && state->valid)) \
+#define NV_DOGET_ENSURES_STATE_K(k) __CPROVER_ensures(NV_OK ==> (NV_AT(state, state0, NV_T) && state->valid)) \
 __CPROVER_ensures(nv_ver_counter >= __CPROVER_old(nv_ver_counter) && state->ver <= nv_ver_counter && state->eval_ver == state->ver && state->m_status == __CPROVER_old(state->m_status)) \
-/* evaluation budget of one line search: at most max_iterations trial evaluations per loop */ \
-__CPROVER_ensures(nv_ver_counter - __CPROVER_old(nv_ver_counter) <= 2 * (uint64_t)nv_max_iterations)
+/* evaluation budget of one line search */ \
+__CPROVER_ensures(nv_ver_counter - __CPROVER_old(nv_ver_counter) <= (k) * (uint64_t)nv_max_iterations)
+/* backtrack / LeMarechal / Fletcher(+zoom) / More-Thuente: at most max_iterations trial evaluations per loop, at most two loops */
+#define NV_DOGET_ENSURES_STATE NV_DOGET_ENSURES_STATE_K(2)
 
 /* backtracking: success => Armijo was evaluated to true on the current trial point with the returned step and c1 */
 #define NV_CONTRACT_backtrack_do_get NV_DOGET_REQUIRES NV_DOGET_ASSIGNS NV_DOGET_ENSURES_STATE \
@@ -107,8 +125,22 @@ __CPROVER_assigns(i, step_size, prev, curr, *state, nv_ver_counter, nv_armijo, n
 __CPROVER_loop_invariant(1 <= i && i <= (max_iterations > 1 ? max_iterations : 1) && NV_AT(state, state0, step_size) && state->valid && NV_VERS(20000)) \
 __CPROVER_decreases(max_iterations - i)
 
+/* More-Thuente (do_get + its step kernel dcstep, both real code): success => the state is the valid evaluation at the
+ * returned step; the value f and the slope g the convergence test reads are the ones of the current trial state; at most
+ * max_iterations evaluations; the loop terminates.  NOT claimed here: that success implies Armijo + strong Wolfe -- the
+ * function tests them inline (`f <= ftest && |g| <= gtol*(-ginit)`) and has four further `return {true, stp}` exits, see
+ * the real-arithmetic contract advertised/morethuente_do_get (adv_smt.py). */
+#define NV_CONTRACT_morethuente_do_get NV_DOGET_REQUIRES NV_DOGET_ASSIGNS NV_DOGET_ENSURES_STATE \
+__CPROVER_ensures(nv_ver_counter - __CPROVER_old(nv_ver_counter) <= (uint64_t)nv_max_iterations)
+#define NV_LOOP_morethuente_do_get_1 \
+__CPROVER_assigns(i, stage, brackt, stp, f, g, stmin, stmax, width, width1, stx, fx, gx, sty, fy, gy, *state, nv_ver_counter) \
+__CPROVER_loop_invariant(0 <= i && i <= max_iterations && NV_AT(state, state0, stp) && state->valid && NV_VERS(20000)) \
+__CPROVER_loop_invariant(NV_SAME(f, state->m_fx) && NV_SAME(g, state->dg)) \
+__CPROVER_decreases(max_iterations - i)
+
 /* the virtual do_get as seen from lsearchk_t::get: the common part of every implementation's contract */
-#define NV_CONTRACT_lsearchk_do_get NV_DOGET_REQUIRES NV_DOGET_ASSIGNS NV_DOGET_ENSURES_STATE \
+/* budget: the largest one of the five implementations is CG_DESCENT's 7 * max_iterations + 1 (advertised/cgdescent_do_get) */
+#define NV_CONTRACT_lsearchk_do_get NV_DOGET_REQUIRES NV_DOGET_ASSIGNS NV_DOGET_ENSURES_STATE_K(8) \
 __CPROVER_ensures(state->ver <= nv_ver_counter)
 struct nv_tuple_b_f64 lsearchk_do_get(struct nv_lsearchk* self, struct nv_state* state0, struct nv_vector* descent, double step_size, struct nv_state* state, struct nv_logger* logger)
 NV_CONTRACT_lsearchk_do_get;
@@ -119,23 +151,23 @@ NV_CONTRACT_lsearchk_do_get;
  * evaluation at x + t*d (x = the point on entry) for the returned t */
 #define NV_CONTRACT_lsearchk_get \
 __CPROVER_requires(NV_STATE_FRESH(state) && __CPROVER_is_fresh(descent, sizeof(*descent)) && __CPROVER_is_fresh(self, sizeof(*self))) \
-__CPROVER_requires(NV_PARAMS_OK && state->ver <= nv_ver_counter && nv_ver_counter < UINT64_MAX - 100000 && state->eval_ver == state->ver) \
+__CPROVER_requires(NV_PARAMS_OK && state->ver <= nv_ver_counter && nv_ver_counter < UINT64_MAX - 3000000 && state->eval_ver == state->ver) \
 __CPROVER_assigns(*state, nv_ver_counter, nv_armijo, nv_wolfe, nv_swolfe) \
 __CPROVER_ensures(!(__CPROVER_old(state->dg) < 0.0) ==> (!NV_OK && NV_STATE_UNCHANGED(state) && NV_SAME(NV_T, step_size))) \
 __CPROVER_ensures(NV_OK ==> (state->origin == __CPROVER_old(state->ver) && NV_SAME(state->t, NV_T) && state->eval_ver == state->ver && state->ver != __CPROVER_old(state->ver) && state->valid)) \
 /* bookkeeping used by the solvers: the state always stays one consistent evaluation; the ghost counter counts evaluations */ \
-__CPROVER_ensures(state->eval_ver == state->ver && state->ver <= nv_ver_counter && nv_ver_counter >= __CPROVER_old(nv_ver_counter) && nv_ver_counter - __CPROVER_old(nv_ver_counter) <= 4 * (uint64_t)nv_max_iterations) \
+__CPROVER_ensures(state->eval_ver == state->ver && state->ver <= nv_ver_counter && nv_ver_counter >= __CPROVER_old(nv_ver_counter) && nv_ver_counter - __CPROVER_old(nv_ver_counter) <= 10 * (uint64_t)nv_max_iterations) \
 __CPROVER_ensures(NV_OK ==> nv_ver_counter > __CPROVER_old(nv_ver_counter)) \
 __CPROVER_ensures(state->m_status == __CPROVER_old(state->m_status))
 #define NV_LOOP_lsearchk_get_1 \
 __CPROVER_assigns(i, step_size, *state, nv_ver_counter) \
-__CPROVER_loop_invariant(0 <= i && i <= max_iterations && state0.ver <= nv_ver_counter && state->ver <= nv_ver_counter && nv_ver_counter < UINT64_MAX - 100000 + i) \
+__CPROVER_loop_invariant(0 <= i && i <= max_iterations && state0.ver <= nv_ver_counter && state->ver <= nv_ver_counter && nv_ver_counter < UINT64_MAX - 3000000 + i) \
 __CPROVER_loop_invariant(state->eval_ver == state->ver && nv_ver_counter >= __CPROVER_loop_entry(nv_ver_counter) && nv_ver_counter - __CPROVER_loop_entry(nv_ver_counter) <= (uint64_t)i && state->m_status == __CPROVER_loop_entry(state->m_status)) \
 __CPROVER_loop_invariant(i > 0 ==> (state->origin == state0.ver && state->eval_ver == state->ver && state->ver != state0.ver && !state->valid)) \
 __CPROVER_decreases(max_iterations - i)
 #define NV_LOOP_lsearchk_get_2 \
 __CPROVER_assigns(i, step_size, *state, nv_ver_counter) \
-__CPROVER_loop_invariant(0 <= i && i <= max_iterations && state0.ver <= nv_ver_counter && state->ver <= nv_ver_counter && nv_ver_counter < UINT64_MAX - 50000 + i) \
+__CPROVER_loop_invariant(0 <= i && i <= max_iterations && state0.ver <= nv_ver_counter && state->ver <= nv_ver_counter && nv_ver_counter < UINT64_MAX - 2500000 + i) \
 __CPROVER_loop_invariant(state->eval_ver == state->ver && nv_ver_counter >= __CPROVER_loop_entry(nv_ver_counter) && nv_ver_counter - __CPROVER_loop_entry(nv_ver_counter) <= (uint64_t)i && state->m_status == __CPROVER_loop_entry(state->m_status)) \
 __CPROVER_loop_invariant(NV_AT(state, &state0, step_size) && state->valid) \
 __CPROVER_decreases(max_iterations - i)
